@@ -361,6 +361,15 @@ def report(ctx, R, inst, file, key, probs, und, okmsg, path=None):
         ctx.ok(R, inst, okmsg, file)
 
 
+def nosimd_copysign(U):
+    """does the NO_SIMD build also compute a sign-bit copy?  (only used to word the report)"""
+    try:
+        V = U if not U.simd else Unit(U.ctx, False)
+        return any(I.is_app(t, 'copysign') for _, t in guarded(V.mod.function('K_sign').summary()))
+    except Exception:
+        return False
+
+
 def check_definitions(ctx, U):
     R = 'R-C07-3'
     n = 0
@@ -437,6 +446,12 @@ def check_definitions(ctx, U):
                 elif t == 1:
                     if I.consistent(g + [I.flit('olt', x, 0)]):
                         probs.append(('pos', 'case `%s` returns +1 although x may be negative' % show_guard(g)))
+                elif I.is_app(t, 'copysign') and t.args[0] in (1, -1) and I.equal(t.args[1], x):
+                    # a sign-bit copy: -1 exactly when the sign bit of x is set.  -0.0f is a finite float with the sign bit set.
+                    probs.append(('negative-zero', 'computes copysign(1, x), a copy of the sign bit: sign(-0.0f) = -1 (and -1 for every NaN '
+                                  'with the sign bit set), whereas the definition x < 0 ? -1 : +1 gives +1 there%s'
+                                  % (' (%s build%s)' % (U.cfg, '; the RKCOMMON_NO_SIMD build computes the definition, so the two builds '
+                                                        'disagree' if U.simd and not nosimd_copysign(U) else ''))))
                 elif t.is_Number:
                     probs.append(('value', 'returns %s; sign is -1 for x < 0 and +1 otherwise' % t))
                 else:
@@ -793,20 +808,35 @@ def check_distributions(ctx, U):
     inst = '%s constructor [%s]' % (URD, U.cfg)
     su = U.summary(R, inst, 'K_urd_ctor', RANDOM)
     sl = sh = None
+    ctor_members = {}
     if su is not None:
         n += 1
         try:
             fl = {k: su.value(k) for k in su.slots() if k.startswith('d[')}
             los = [k for k, t in fl.items() if t == lo]
             his = [k for k, t in fl.items() if t == hi]
-            if len(los) == 1 and len(his) == 1 and len(fl) == 2:
+            extra = {k: t for k, t in fl.items() if k not in los + his}
+            foreign = [k for k, t in extra.items() if only_reads(t, ('lo', 'hi'))]
+            if len(los) == 1 and len(his) == 1 and not foreign:
                 sl, sh = los[0], his[0]
-                ctx.ok(R, inst, 'l=%s u=%s' % (sl, sh), RANDOM)
-            else:
-                ctx.violation(R, inst, 'constructor stores %s; expected exactly the two bounds' % {k: str(v) for k, v in fl.items()},
+                ctor_members = extra
+                ctx.ok(R, inst, 'l=%s u=%s%s' % (sl, sh, '; further members determined by the bounds: %s' % {k: str(v) for k, v in extra.items()}
+                                                if extra else ''), RANDOM)
+            elif len(los) != 1 or len(his) != 1:
+                ctx.violation(R, inst, 'constructor stores %s; the two bounds are not each stored exactly once' % {k: str(v) for k, v in fl.items()},
                               RANDOM, key=key(URD, 'ctor'))
+            else:
+                ctx.undecided(R, inst, 'members %s depend on something other than the two bounds' % foreign, RANDOM)
         except Undecided as e:
             ctx.undecided(R, inst, str(e), RANDOM)
+    ctor_members_d = {}
+    sud = U.summary(R, '%s<double> constructor [%s]' % (URD, U.cfg), 'K_urd_ctor_d', RANDOM)
+    if sud is not None:
+        try:
+            fd = {k: sud.value(k) for k in sud.slots() if k.startswith('d[')}
+            ctor_members_d = {k: t for k, t in fd.items() if t not in (lo, hi) and not only_reads(t, ('lo', 'hi'))}
+        except Undecided:
+            pass
     for kname, what, gen, off_hi in (('K_urd_gen', 'uniform_real_distribution<float>(RkvGen)', 'gen', 4),
                                      ('K_urd_gen_d', 'uniform_real_distribution<double>(RkvGen)', 'gen', 8),
                                      ('K_urd_pcg', 'uniform_real_distribution<float>(pcg32)', 'pcg', 4)):
@@ -816,19 +846,42 @@ def check_distributions(ctx, U):
             continue
         n += 1
         try:
-            t = s.value('ret')
             l, u = sym('d[0]'), sym('d[%d]' % off_hi)
             probs, und = [], []
-            bad = only_reads(t, ('d[', 'g['))
-            if bad:
-                probs.append(('impure', 'reads %s besides the distribution members and the generator' % bad))
-            P = sp.Poly(sp.expand(t), l, u)
-            co = {m: c for m, c in P.terms()}
-            cu = co.pop((0, 1), 0)
-            cl = co.pop((1, 0), 0)
-            if co or not I.equal(cl, 1 - cu):
-                probs.append(('form', 'result %s is not l + k * (u - l)' % t))
-            else:
+            # members written by operator() itself: state that survives into the next call
+            written = set()
+            for p in s.paths:
+                written |= {k for k in s.path_slots(p) if k.startswith('d[')}
+            rets = []
+            for g, t0 in s.values('ret'):
+                rets += I.cases(t0, g)
+            for g, t in rets:
+                members = sorted(str(z) for z in t.free_symbols if str(z).startswith('d[') and z not in (l, u))
+                carried = [m_ for m_ in members if m_ in written]
+                if carried:
+                    probs.append(('stale-state', 'on the path `%s` the returned value is computed from member %s, which operator() itself '
+                                  'writes (a value cached by an earlier call, computed from that call\'s generator): the result depends on the '
+                                  'call history instead of on l, u and this call\'s generator alone - e.g. a scale cached for one engine '
+                                  'type is reused for an engine with another range, and the values leave [l, u]' % (show_guard(g), ', '.join(carried))))
+                    continue
+                if members:
+                    # a member that only the constructor writes: substitute what it stored (a function of the bounds)
+                    cm = ctor_members if off_hi == 4 else ctor_members_d
+                    if all(m_ in cm for m_ in members):
+                        t = t.xreplace({sym(m_): cm[m_].xreplace({lo: l, hi: u}) for m_ in members})
+                    else:
+                        und.append('result reads member(s) %s' % members)
+                        continue
+                bad = only_reads(t, ('d[', 'g['))
+                if bad:
+                    probs.append(('impure', 'reads %s besides the distribution members and the generator' % bad))
+                P = sp.Poly(sp.expand(t), l, u)
+                co = {m: c for m, c in P.terms()}
+                cu = co.pop((0, 1), 0)
+                cl = co.pop((1, 0), 0)
+                if co or not I.equal(cl, 1 - cu):
+                    probs.append(('form', 'result %s is not l + k * (u - l)' % t))
+                    continue
                 if gen == 'gen':
                     span, mn, v = 1024, 16, sym('g[0]')
                     want = I.atom('uitofp_32', v - mn)
@@ -850,7 +903,7 @@ def check_distributions(ctx, U):
                     elif not (sp.Rational(1, 2 ** 32) <= k <= sp.Rational(1, 2 ** 32 - 2 ** 9)):
                         probs.append(('span', 'k = rng() * %s; expected rng() / (max - min) with max - min = 2^32 - 1' % k))
             report(ctx, R, inst, RANDOM, key(URD + '::operator()', ''), probs, und,
-                   'l + (u - l) * (g() - min) / (max - min); reads only l, u and the generator')
+                   'l + (u - l) * (g() - min) / (max - min); reads only l, u and the generator; keeps no state between calls')
         except (Undecided, sp.PolynomialError) as e:
             ctx.undecided(R, inst, str(e), RANDOM)
     return n
